@@ -57,12 +57,22 @@ for d in sorted(glob.glob(V + "/seeded/*/")):
     summ = (m.get("summary", "")[:230] + " NEEDS: " + str(m.get("needs", ""))[:200]).replace("|", "/").replace("\n", " ")
     rows.append("| %s | %s | %s | %s | %s |" % (name, m.get("property", name.split("-")[0]), summ, conf, "; ".join(verd) or "not run yet"))
 s02 = "\n".join(rows)
+# 0.3 findings
+fx, kn = [], []
+for ln in open(V + "/known_findings.txt"):
+    ln = ln.strip()
+    m = re.match(r"fixed:\s+property=(\S+)\s+(\S+)\s+(.*)$", ln)
+    if m: fx.append("| %s | `%s` | %s |" % (m.group(1), m.group(2), m.group(3).replace("|", "/")[:400]))
+    m = re.match(r"known:\s+property=(\S+)\s+key=(\S+)\s+(.*)$", ln)
+    if m: kn.append("| %s | `%s` | %s |" % (m.group(1), m.group(2), m.group(3).replace("|", "/")[:600]))
+s03 = ("**Genuine defects repaired in /repo** (one `fix:` commit each; the model follows the fixed code, the pre-fix behaviour is kept as a `_refuted_before_fix`/regression theorem and as a corpus/regression case; a `fixed:` entry suppresses nothing):\n\n| Property | Commit | What failed |\n|---|---|---|\n" + "\n".join(sorted(fx)) +
+       "\n\n**Genuine defects recorded, not repaired** (`known:` entries of known_findings.txt; each is refuted on the faithful model by a `…_refuted_…` theorem with a `vm_compute` witness, replayed on the implementation on every run, printed as `KNOWN-FINDING`, and keyed so that any other failure of the same property is still a VIOLATION):\n\n| Property | Key | What fails, and why it was not repaired |\n|---|---|---|\n" + "\n".join(sorted(kn)) + "\n")
 p = V + "/DESIGN.md"
 s = open(p).read()
 a = s.index("### 0.1 Status per property")
 b = s.index("### 0.2 Seeded breaking changes")
-c = s.index("-----", b)
+c = s.index("### 0.4 False alarms", b)
 s = s[:a] + "### 0.1 Status per property\n\n(generated by tools/mkstatus.py from engines/meta, coq/Props, known_findings.txt, evidence/; the full claim text and trusted base per property are in MANIFEST.json)\n\n" + s01 + "\n\n" + \
-    "### 0.2 Seeded breaking changes and which check catches them\n\n(generated by tools/mkstatus.py from seeded/*/meta.json and seeded/RESULTS.json; each change was written by an independent sub-agent given only the property text and a scratch worktree, then confirmed by tools/seedcheck.py in a scratch worktree of /repo HEAD)\n\n" + s02 + "\n\n" + s[c:]
+    "### 0.2 Seeded breaking changes and which check catches them\n\n(generated by tools/mkstatus.py from seeded/*/meta.json and seeded/RESULTS.json; each change was written by an independent sub-agent given only the property text and a scratch worktree, then confirmed by tools/seedcheck.py in a scratch worktree of /repo HEAD)\n\n" + s02 + "\n\n### 0.3 Findings\n\n(generated from known_findings.txt)\n\n" + s03 + "\n" + s[c:]
 open(p, "w").write(s)
 print("DESIGN.md sections 0.1/0.2 rewritten")
